@@ -44,3 +44,20 @@ package templater
 //@ requires iter != nil
 //@ modifies nothing
 //@ loop 0 invariant len(a) == len(args)
+
+// The template functions offered to scenarios: randInt, randString, uuid, each bound to its own implementation.
+//@ func GetFuncs
+//@ props C15 C13
+//@ modifies nothing
+//@ ensures [documented-functions] has(result, "randInt") && has(result, "randString") && has(result, "uuid") && forall_t(q, string, imp(has(result, q), q == "randInt" || q == "randString" || q == "uuid"))
+
+//@ func ParseFunc
+//@ props C15 C13
+//@ nilsafe
+//@ ensures [unknown-function-is-nothing] imp(!has(result_of(GetFuncs, 0), result_of(parseStr, 0)), f == nil && len(args) == 0)
+//@ ensures [known-function-with-its-arguments] imp(has(result_of(GetFuncs, 0), result_of(parseStr, 0)), f == result_of(GetFuncs, 0)[result_of(parseStr, 0)] && args == result_of(parseStr, 1))
+//@ at call parseStr assert arg(v) == v0
+
+//@ func UUID
+//@ props C15 C13
+//@ ensures [uuid-failure-is-an-error] imp(result_of(uuid.NewV4, 1) != nil, result1 != nil)
